@@ -432,7 +432,7 @@ def run_family(item, A, vs, kdims, Ks, specs, eigA, detect_ok, ms, count_ok=True
                 if variant and not any(cl == "finite" for cl, _, _ in res):
                     Q1, T1, _, _ = call_lanczos(herm1, refv(vs[0]), m, tol, n, tag + "|reference", **ca)
                     nchk += 1
-                    vok = (det_eff or dyadic) and not count_bad and not kf.null_start(hss[0], A_t)
+                    vok = (det_eff or tight) and not count_bad and not kf.null_start(hss[0], A_t)
                     msg = check_scaled(Qd, Td, np.asarray(Q1.to_dense()), dense_T(T1), sc, dt, A_t, kdims[0], m, jmax,
                                        count_ok=vok, tight=tight, tq=vtol)
                     if msg:
@@ -502,7 +502,7 @@ def run_family(item, A, vs, kdims, Ks, specs, eigA, detect_ok, ms, count_ok=True
                                                 tag + "|batched|reference", **ca)
                     nchk += 1
                     Q1A = np.asarray(Q1.A)
-                    cok = (detectable or dyadic) and kmax is not None and count_ok \
+                    cok = (detectable or tight) and kmax is not None and count_ok \
                         and not any(kf.null_start(h, A_t) for h in hss)
                     if Q1A.shape != QA.shape and cok:
                         viol.append(mk_viol(item, vclause, f"batched variant run returned {c} columns, the reference run "
